@@ -1,6 +1,7 @@
 CONSTANTS
   Depth = 2
   MapDepth = 1
+  Narrow = FALSE
 SPECIFICATION Spec
 INVARIANTS InterningTablesDistinct IdsStable TokensAlwaysResolve JoinIdempotentOnAbsolute EmitCase
 CHECK_DEADLOCK FALSE
